@@ -3,7 +3,7 @@ import AbraModel.Literals
 import AbraModel.Drv.Util
 /- Driver for M10 `Lex`/`Literals`:
    `lex <hex of the UTF-8 source>` → `<tok> <tok> … | <err> …` with tok = `Tag/lo/hi` or
-   `Tag:<hex of payload>/lo/hi` (byte offsets), err = `U/<offset>` (unrecognized token) or `E/lo/hi` (bad escape);
+   `Tag:<hex of payload>/lo/hi` (byte offsets), err = `U/lo/hi` (unrecognized character) or `E/lo/hi` (bad escape);
    `lexkinds <hex>` → the same without spans; `intlit <0|1 negated> <digits>` → `ok <value>` | `range`;
    `escape <s|d|t> <hex>` → hex of the escaped spelling (the generator's printer). -/
 namespace Abra.Drv
@@ -38,7 +38,7 @@ def lexKindWord (k : TokenKind) : String :=
   | none => lexTag k
 
 def lexErrWord : LexError → String
-  | .unrecognized i => "U/" ++ toString i
+  | .unrecognized lo hi => "U/" ++ toString lo ++ "/" ++ toString hi
   | .badEscape lo hi => "E/" ++ toString lo ++ "/" ++ toString hi
 
 def lexDecode? (w : String) : Option (List Char) :=
